@@ -113,6 +113,10 @@ impl InterfaceUnit {
     pub fn validate_hash(&self) -> bool {
         self.interface_hash == self.compute_hash()
     }
+
+    pub fn validate_version(&self) -> bool {
+        self.format_version == FORMAT_VERSION && self.compiler_abi == COMPILER_ABI
+    }
 }
 
 #[derive(Debug, Clone, serde::Serialize, serde::Deserialize)]
@@ -144,6 +148,7 @@ impl CoreUnit {
         self.format_version == FORMAT_VERSION
             && self.compiler_abi == COMPILER_ABI
             && self.package == self.interface.package
+            && self.interface.validate_version()
             && self.interface.validate_hash()
             && self.deps == self.interface.deps
     }
